@@ -18,6 +18,7 @@ THEOREM_PROPS = {
     "sum_add": {"C05"},
     "sum_scale": {"C05"},
     "sum_update": {"C05"},
+    "sum_routed": {"C05"},
     "sum_congr'": {"C05"},
     "sum_union": {"C05"},
 }
